@@ -172,7 +172,9 @@ def check_limiter(chk: Check, repo: Repo) -> None:
                     a = node.ast
                     if node.kind == "stmt" and isinstance(a, ast.Expr) and isinstance(a.value, ast.Await) and ast.unparse(a.value.value) == "self._rate_limiter":
                         e1 = dict(env); e1["trace"] = tuple(env.get("trace", ())) + ("AWAIT_PACER",)
-                        return [("next", e1)]
+                        # the wait can be cancelled (stop() under wait_for): whatever was taken from the queue is marked done
+                        e2 = dict(env); e2["trace"] = tuple(env.get("trace", ())) + ("AWAIT_PACER:cancelled",); e2["#raised"] = "CancelledError"
+                        return [("next", e1), (f"goto:{am._exc_target(node, 'CancelledError')}", e2)]
                     return base(node, env)
 
                 env = {"self.xknx.rate_limit": rate, "self._rate_limiter": prev, **{f"{h.name}.should_log": True for h in ast.walk(fi.node) if isinstance(h, ast.ExceptHandler) and h.name}}
@@ -184,6 +186,10 @@ def check_limiter(chk: Check, repo: Repo) -> None:
                     if label == "None":
                         if end != "exit" or tr.count("DONE_OUT") != 1 or tr.count("DONE") != 0:
                             problems.append("sentinel must be marked done on the outgoing queue only and end the loop")
+                    elif "AWAIT_PACER:cancelled" in tr:
+                        # the run is being cancelled: the only obligation left is the bookkeeping (checked below in the same words)
+                        if tr.count("DONE_OUT") != 1 or tr.count("DONE") != 1:
+                            problems.append("cancelled while waiting for the pause: the telegram it took from the queue is never marked done - join()/stop() of the restarted queue hang")
                     else:
                         if end != "head":
                             problems.append(f"limiter loop ends ({end}) on a telegram")
@@ -204,6 +210,8 @@ def check_limiter(chk: Check, repo: Repo) -> None:
                                 problems.append("exactly one pacing task sleep(1 / rate_limit) must be started after the send, whatever its outcome (a pause started before a send that has to wait is used up while it waits)")
                             if prev is not None and ("AWAIT_PACER" not in tr or tr.index("AWAIT_PACER") > (outs[0] if outs else 0)):
                                 problems.append("the previous pacing task must be awaited before the next send")
+                        if "AWAIT_PACER:cancelled" in tr and (tr.count("DONE_OUT") != 1 or tr.count("DONE") != 1):
+                            problems.append("cancelled while waiting for the pause: the telegram it took from the queue is never marked done")
                         if (not rate or label == "internal") and (spawns or "AWAIT_PACER" in tr):
                             problems.append("pacing applied although no rate limit / internal address")
                         if "CANCEL_PACER" in tr and not any(t.startswith("SPAWN(") and "sleep(1 / self.xknx.rate_limit)" in t for t in tr[len(tr) - tr[::-1].index("CANCEL_PACER"):]):
@@ -246,13 +254,44 @@ def check_processing(chk: Check, repo: Repo) -> None:
             chk.ob("processing-shape", fi.site(), ok, f"{qual.split('.')[1]} dest={dst}: {sorted(got)} (send iff not internal and outgoing; devices and callbacks exactly once)", key=f"proc|{qual}|{dst}" + ("" if ok else f"|{sorted(got)}"))
 
 
+def check_rate_division(chk: Check, repo: Repo) -> None:
+    """`xknx.rate_limit` is a plain attribute an application may change while a send is suspended: every `1 / rate_limit`
+    of the limiter is evaluated where the attribute is known to be non-zero AT THAT STATEMENT (a test before the await
+    says nothing about it afterwards) - a ZeroDivisionError there ends the limiter before it marked the telegram done."""
+    f = repo.func(TQ, "TelegramQueue._outgoing_rate_limiter")
+    cfg = CFG(f.node)
+    # facts about attributes are dropped at every call / await in between (kill_on_call): what is left was tested right here
+    mf = cfg.must_facts(kill_on_call=True)
+    n_div = 0
+    for n in cfg.nodes:
+        if n.ast is None or n.kind != "stmt":
+            continue
+        for d in [x for x in ast.walk(n.ast) if isinstance(x, ast.BinOp) and isinstance(x.op, ast.Div) and ast.unparse(x.right) == "self.xknx.rate_limit"]:
+            n_div += 1
+            facts = mf[n.id]
+            ok = ("self.xknx.rate_limit", True) in facts
+            chk.ob("rate-division-is-guarded-where-it-happens", f.site(d), ok, f"`{ast.unparse(d)}` under a test of self.xknx.rate_limit with no await in between" if ok else f"`{ast.unparse(d)}` relies on a test of rate_limit made before an await (or on none): a rate limit switched off while the send was suspended raises ZeroDivisionError here, before the telegram is marked done", key="limiter|rate-division")
+    chk.floor("rate divisions in the limiter", n_div, 1)
+
+
+def _start_clears_slot(repo: Repo, w) -> bool:
+    """start() may empty the slot before it creates the consumer pair (a pause cancelled together with the previous run
+    would end the new limiter at its first `await`): an assignment of None that dominates the `asyncio.gather(...)`"""
+    if w.func.qualname != "TelegramQueue.start" or not (isinstance(w.stmt, ast.Assign) and isinstance(w.stmt.value, ast.Constant) and w.stmt.value.value is None):
+        return False
+    cfg = CFG(w.func.node)
+    me = [n for n in cfg.nodes if n.ast is w.stmt]
+    mk = [n for n in cfg.nodes if n.ast is not None and n.kind == "stmt" and any(call_name(c) == "asyncio.gather" for c in calls(n.ast))]
+    return len(me) == 1 and len(mk) == 1 and cfg.dominates(me[0].id, mk[0].id)
+
+
 def check_pacer_owner(chk: Check, repo: Repo) -> None:
     sites = [(f, c) for f in repo.all_functions() for c in calls(f.node) if call_name(c).endswith("_rate_limiter.cancel")]
     for f, c in sites:
         chk.ob("pacer-cancel-owner", f.site(c), f.qualname == "TelegramQueue._outgoing_rate_limiter", f"`{call_name(c)}()` in {f.qualname}: the pacing task may only be cancelled by the limiter itself on the sentinel (a cancelled pacer awaited by the limiter would kill it and stall the queue)", key=f"pacer-cancel|{f.qualname}")
     ws = [w for w in attr_writes(repo, "_rate_limiter", include_mutators=False) if w.func.module.name == TQ]
     for w in ws:
-        chk.ob("pacer-slot-writer", w.func.site(w.stmt), w.func.qualname in ("TelegramQueue.__init__", "TelegramQueue._outgoing_rate_limiter"), f"`{ast.unparse(w.stmt)[:70]}` in {w.func.qualname}", key=f"pacer-slot|{w.func.qualname}")
+        chk.ob("pacer-slot-writer", w.func.site(w.stmt), w.func.qualname in ("TelegramQueue.__init__", "TelegramQueue._outgoing_rate_limiter") or _start_clears_slot(repo, w), f"`{ast.unparse(w.stmt)[:70]}` in {w.func.qualname}", key=f"pacer-slot|{w.func.qualname}")
 
 
 def check_structure(chk: Check, repo: Repo) -> None:
@@ -302,7 +341,12 @@ def check_restart(chk: Check, repo: Repo) -> None:
         cancels = [n.id for n in cfg.nodes if n.ast is not None and n.kind == "stmt" and any(isinstance(c, ast.Call) and call_name(c) == f"self.{slot}.cancel" for c in ast.walk(n.ast))]
         resets = [n.id for n in cfg.nodes if n.kind == "stmt" and isinstance(n.ast, ast.Assign) and ast.unparse(n.ast.targets[0]) == f"self.{slot}"]
         ok = all(cfg.all_paths_hit(c, resets, [cfg.exit], edge_ok=cfg.normal_only, include_start=False) for c in cancels)
-        foreign = [w.func.qualname for w in attr_writes(repo, slot, include_mutators=False) if w.func.qualname not in ("TelegramQueue.__init__", f.qualname)]
+        foreign = [w.func.qualname for w in attr_writes(repo, slot, include_mutators=False) if w.func.qualname not in ("TelegramQueue.__init__", f.qualname) and not _start_clears_slot(repo, w)]
+        # the other way a cancelled pause gets into the slot: the run is cancelled while the pause is pending (a stop()
+        # under wait_for) - start() then has to empty the slot before the new limiter awaits it
+        st_ = repo.func(TQ, "TelegramQueue.start")
+        cleared = any(_start_clears_slot(repo, w) for w in attr_writes(repo, slot, include_mutators=False))
+        chk.ob("cancelled-pause-is-not-left-in-the-slot", st_.site(), cleared, f"TelegramQueue.start() empties self.{slot} before it creates the consumer pair" if cleared else f"TelegramQueue.start() leaves self.{slot} as the previous run left it: a pause cancelled together with that run is awaited by the new limiter, which ends with CancelledError - every outgoing telegram stalls", key=f"restart|{slot}|start")
         cancel_elsewhere = [g.qualname for g in repo.all_functions() if g is not f and g.module.name == TQ and any(call_name(c) == f"self.{slot}.cancel" for c in calls(g.node))]
         chk.ob("cancelled-pause-is-not-left-in-the-slot", f.site(), ok and not foreign and not cancel_elsewhere, f"self.{slot}: {len(cancels)} cancel site(s) in the limiter, each followed by a reset of the slot before the coroutine ends ({ok}); other writers {foreign}; cancelled elsewhere {cancel_elsewhere}", key=f"restart|{slot}")
 
@@ -363,6 +407,7 @@ def run(chk: Check, repo: Repo) -> None:
     check_restart(chk, repo)
     check_consumer(chk, repo)
     check_limiter(chk, repo)
+    check_rate_division(chk, repo)
     check_processing(chk, repo)
     check_pacer_owner(chk, repo)
     check_structure(chk, repo)
